@@ -584,6 +584,15 @@ impl Layer {
     /// The elements are visited in unsorted (and unspecified) order.
     pub fn retain(&mut self, f: impl FnMut(&Name, &mut Glyph) -> bool) {
         self.glyphs.retain(f);
+        // drop the file names of the removed glyphs, as `remove_glyph` does
+        let (glyphs, path_set) = (&self.glyphs, &mut self.path_set);
+        self.contents.retain(|name, path| {
+            let keep = glyphs.contains_key(name);
+            if !keep {
+                path_set.remove(&path.to_string_lossy().to_lowercase());
+            }
+            keep
+        });
     }
 
     /// Returns the path to the .glif file of a given glyph `name`.
